@@ -214,9 +214,27 @@ CLAIMS['C20'] = dict(
     technique='Verus totality + functional contracts on extracted LSP position functions',
 )
 
+CLAIMS['C09'] = dict(
+    text=('PARTIAL, function level (no induction over the import graph): (1) the real pre-translation Rewriter + the whole real AST Walker '
+          '(every default method, all 34 AST types extracted) reach every Import / Include node at EVERY syntactic position of a file '
+          '(top level, function body, map/filter/reduce callback, fail message, module body / out expression, let / field / parameter '
+          'constraints, ...) exactly once, join a relative path to the containing file\'s directory, and leave absolute paths, std/ paths '
+          'and every other field of the tree untouched; (2) the real import hook Builtins::import reads and writes its value cache under ONE '
+          'key, the normalised path: a hit pushes the very same Rc with no evaluation and no state change, a miss is exactly one evaluation '
+          'of the file the key names, run in the key\'s directory, whose result is what is cached and pushed; (3) a key that is on the '
+          'import stack and not cached is an error with no evaluation, and every evaluating VM carries its own file on its import stack. '
+          'NOT covered deductively: which spellings normalize / is_relative / join identify (uninterpreted), VM::run re-entering the hook '
+          '(so "once per build" end to end is the bounded stand-in\'s), the op cache, the type checker\'s separate static resolution, '
+          'FileBuilder seeding of the main file; working directories and file trees are sampled by the bounded stand-in.'),
+    design_ref='DESIGN.md §5 C09',
+    note=('Trusted: Verus/Z3; extraction rules and substs listed in evidence (Visitor/Walker monomorphised to Rewriter; RefCell<Environment> -> &mut '
+          'Environment + ghost world; VM::run logs one run record and havocs); path::normalize, Path::parent/join/is_relative, str::replace '
+          'uninterpreted functions of the path text; BTreeMap get/insert model; Rc clone = pointer equality; to_string_lossy lossless.'),
+    technique='Verus relational contracts on the extracted AST walker / path rewriter and whole-state contract on the extracted import hook',
+)
+
 NOT_APPLICABLE = {
     'C07': 'relational completeness between the whole type checker and the whole evaluator; no per-function contract within reach of Verus/Kani states "accepts what runs" (DESIGN §5 C07)',
-    'C09': 'quantifies over file-system trees, working directories and import graphs; mechanisms are a generic &mut-AST walker, std::path and RefCell caches re-entered through recursive VM::run - not expressible as function contracts the installed verifiers can check (DESIGN §5 C09)',
     'C16': 'hyperproperty over runs of a process (sets/orders of files) through cross-file memoisation; needs the whole compiler specified as a function of the file system (DESIGN §5 C16)',
     'C17': 'diagnostic positions are plumbed through ~120 translator push sites and parser-combinator error contexts; needs end positions the AST does not carry and relates two runs (DESIGN §5 C17)',
     'C19': 'the helpers are UCG programs (std/*.ucg), not Rust; neither verifier reads UCG (DESIGN §5 C19)',
